@@ -11,6 +11,21 @@ Definition rest_ok (m : ostate) (X : list (list ev)) : Prop :=
 
 Definition Mj (k i j n : nat) : list ev := map (EUpd k i) (seq j (n - j)).
 
+Arguments Mj : simpl never.
+Arguments drop_empty : simpl never.
+Arguments ev_beq : simpl never.
+
+Lemma Mj0 k i n : map (EUpd k i) (seq 0 n) = Mj k i 0 n.
+Proof. unfold Mj. rewrite Nat.sub_0_r. reflexivity. Qed.
+
+Lemma de_nil : drop_empty [] = [].
+Proof. reflexivity. Qed.
+Lemma de_cons h t X : drop_empty ((h :: t) :: X) = (h :: t) :: X.
+Proof. reflexivity. Qed.
+Lemma de_nilc X : drop_empty ([] :: X) = drop_empty X.
+Proof. reflexivity. Qed.
+
+
 Lemma Mj_step k i j n : j < n -> Mj k i j n = EUpd k i j :: Mj k i (S j) n.
 Proof.
   intros H. unfold Mj. replace (n - j) with (S (n - S j)) by lia. reflexivity.
@@ -71,4 +86,157 @@ Lemma stopped_mono_x s l s1 : In (l, s1) (xstep s) ->
 Proof.
   intros H. dst s; unfold xstep, stopped_of in *; cbn in *;
   crunch H; cbn in *; repeat split; auto; destruct cpc0; reflexivity.
+Qed.
+
+Lemma R_frame rc sc s m s1 m' :
+  R_order rc sc s m -> inv1 rc s1 ->
+  s_pc s1 = s_pc s -> s_att s1 = s_att s -> s_conn s1 = s_conn s ->
+  o_rest m' = o_rest m -> o_cur m' = o_cur m -> o_bad m' = false ->
+  o_stopped m' = stopped_of s1 -> (o_stopped m = true -> o_stopped m' = true) ->
+  R_order rc sc s1 m'.
+Proof.
+  intros [I [B [St P]]] I1 E1 E2 E3 E4 E5 E6 E7 E8.
+  unfold R_order. split; [exact I1|]. split; [exact E6|]. split; [exact E7|].
+  cbv zeta in *. rewrite E1, E2, E3. unfold rest_ok in *. rewrite E4, E5.
+  destruct (s_pc s); try exact P; try (destruct rc; [exact P|]); intuition.
+Qed.
+
+Lemma R_order_cx_tau rc sc s m s1 :
+  R_order rc sc s m -> In (None, s1) (cstep rc s ++ xstep s) ->
+  inv1 rc s1 -> R_order rc sc s1 m.
+Proof.
+  intros R H I1. pose proof R as [_ [B [St _]]].
+  apply in_app_iff in H. destruct H as [H|H].
+  - destruct (stopped_mono_c _ _ _ _ H) as [E1 [E2 [E3 [E4 E5]]]].
+    eapply R_frame; eauto; congruence.
+  - destruct (stopped_mono_x _ _ _ H) as [E1 [E2 [E3 E5]]].
+    eapply R_frame; eauto; congruence.
+Qed.
+
+Lemma R_order_cx_vis rc sc s m l s1 :
+  R_order rc sc s m -> In (Some l, s1) (cstep rc s ++ xstep s) ->
+  inv1 rc s1 ->
+  o_bad (order_step rc sc m l) = false /\ R_order rc sc s1 (order_step rc sc m l).
+Proof.
+  intros R H I1. pose proof R as [_ [B [St _]]].
+  apply in_app_iff in H. destruct H as [H|H].
+  - destruct (stopped_mono_c _ _ _ _ H) as [E1 [E2 [E3 [E4 E5]]]].
+    destruct l; try contradiction; cbn; (split; [reflexivity|]);
+    (eapply R_frame; eauto; cbn; congruence).
+  - destruct (stopped_mono_x _ _ _ H) as [E1 [E2 [E3 E5]]].
+    destruct l; try contradiction; cbn; (split; [reflexivity|]);
+    (eapply R_frame; eauto; cbn; congruence).
+Qed.
+
+Lemma drop_empty_nil_cons X : drop_empty ([] :: X) = drop_empty X.
+Proof. reflexivity. Qed.
+
+Lemma inv1_bclosed_stopped rc s : inv1 rc s -> b_closed s = true -> stopped_of s = true.
+Proof.
+  intros [_ [_ [_ [I _]]]] H. specialize (I H). unfold stopped_of. destruct (c_pc s), (x_pc s); cbn; auto; congruence.
+Qed.
+
+Lemma inv1_cancelled_stopped rc s : inv1 rc s -> cancelled s = true -> stopped_of s = true.
+Proof.
+  intros [I1 [_ [I3 _]]] H. unfold cancelled in H. apply orb_true_iff in H. unfold stopped_of.
+  destruct H as [H|H].
+  - specialize (I1 H). destruct (c_pc s), (x_pc s); cbn; auto; congruence.
+  - specialize (I3 H). destruct (c_pc s), (x_pc s); cbn; auto; congruence.
+Qed.
+
+
+Lemma R_order_s_tau rc sc s m s1 :
+  R_order rc sc s m -> In (None, s1) (sstep rc sc s) -> inv1 rc s1 -> R_order rc sc s1 m.
+Proof.
+  intros [I [B [St P]]] H I1.
+  pose proof (inv1_bclosed_stopped _ _ I) as HB.
+  pose proof (inv1_cancelled_stopped _ _ I) as HC.
+  pose proof (proj1 (proj2 (proj2 (proj2 (proj2 I))))) as HR.
+  unfold R_order. split; [exact I1|]. split; [exact B|]. clear I I1.
+  dst s; destruct rc; unfold stopped_of, sstep, end_attempt, rest_ok, expected, cancelled in *; cbv zeta in *; cbn in *;
+  crunch H; cbn in *; splitifs; (split; [exact St|]).
+  all: try exact Logic.I.
+  all: try (match goal with
+            | E : nth_error _ _ = Some _ |- _ => rewrite (skipn_nth_some _ _ _ E) in *; cbn in *
+            | E : nth_error _ _ = None |- _ => rewrite (skipn_nth_none _ _ E) in *; cbn in *
+            end).
+  all: rewrite ?skipn_O in *.
+  all: destruct (a_init (sc att0)) eqn:?; destruct (a_sub (sc att0)) eqn:?; cbn in *; try discriminate.
+  all: rewrite ?St, ?Mj0 in *; rewrite ?de_nil, ?de_nilc in *.
+  all: repeat match goal with
+              | H : negb _ = false |- _ => apply negb_false_iff in H
+              | H : negb _ = true |- _ => apply negb_true_iff in H
+              end.
+  all: try solve [intuition (try congruence; try lia)].
+  all: try (apply Nat.ltb_ge in Heqb; destruct P as [Pc [Pj [[Pa Pr]|[Pz [Pa Pr]]]]];
+            [assert (j = n) by lia; subst; rewrite Mj_end in Pa; auto
+            |assert (n = 0) by lia; subst; rewrite Mj_end, de_nilc in Pr; auto]; fail).
+  all: try (specialize (HR eq_refl); cbn in HR; destruct HR; discriminate).
+Qed.
+
+Lemma R_order_s_vis rc sc s m l s1 :
+  R_order rc sc s m -> In (Some l, s1) (sstep rc sc s) -> inv1 rc s1 ->
+  o_bad (order_step rc sc m l) = false /\ R_order rc sc s1 (order_step rc sc m l).
+Proof.
+  intros [I [B [St P]]] H I1.
+  pose proof (inv1_bclosed_stopped _ _ I) as HB.
+  pose proof (inv1_cancelled_stopped _ _ I) as HC.
+  pose proof (proj1 (proj2 (proj2 (proj2 (proj2 I))))) as HR.
+  unfold R_order. clear I.
+  destruct m as [ms mr mc mb]; cbn in B; subst mb.
+  dst s; destruct rc; unfold stopped_of, sstep, end_attempt, rest_ok, expected, cancelled in *; cbv zeta in *; cbn in *;
+  crunch H; cbn in *; splitifs.
+  all: try (match goal with
+            | E : nth_error _ _ = Some _ |- _ => rewrite (skipn_nth_some _ _ _ E) in *; cbn in *
+            | E : nth_error _ _ = None |- _ => rewrite (skipn_nth_none _ _ E) in *; cbn in *
+            end).
+  all: rewrite ?skipn_O in *.
+  all: rewrite ?Mj0 in *; rewrite ?de_nil, ?de_nilc in *.
+  all: unfold expected in *.
+  all: destruct (a_init (sc att0)) eqn:?; destruct (a_sub (sc att0)) eqn:?; cbn in *; try discriminate.
+  all: repeat match goal with
+              | H : negb _ = false |- _ => apply negb_false_iff in H
+              | H : negb _ = true |- _ => apply negb_true_iff in H
+              | H : (_ <? _)%nat = true |- _ => apply Nat.ltb_lt in H
+              end.
+  all: try match type of P with _ /\ _ /\ (_ \/ _) => destruct P as [Pc [Pj [[Pa Pr]|[Pz [Pa Pr]]]]]; subst; rewrite ?Mj_step in * by assumption end.
+  all: repeat match goal with H : _ /\ _ |- _ => destruct H end; subst.
+  all: repeat match goal with H : drop_empty ?x = _ |- _ => is_var x; rewrite ?H in *; revert H end; intros.
+  all: rewrite ?de_cons, ?de_nil, ?de_nilc in *; cbn; rewrite ?ev_beq_refl; cbn.
+  all: (split; [try reflexivity | split; [exact I1 | split; [try reflexivity | split; [try reflexivity |]]]]).
+  all: try match goal with H : _ \/ _ |- negb _ = false => destruct H as [H|H]; rewrite H; cbn; rewrite ?orb_true_r; reflexivity end.
+  all: clear I1; try solve [intuition (try congruence; try lia)].
+Qed.
+
+Definition R_order' (rc : bool) (sc : script) (s : st) (m : ostate) : Prop := R_order rc sc s m.
+
+Lemma R_order_tau rc sc s m s1 :
+  R_order rc sc s m -> In (None, s1) (step rc sc s) -> R_order rc sc s1 m.
+Proof.
+  intros R H. assert (I1 : inv1 rc s1) by (eapply inv1_step; [exact (proj1 R)|exact H]).
+  unfold step in H. apply in_app_iff in H. destruct H as [H|H].
+  - eapply R_order_s_tau; eauto.
+  - eapply R_order_cx_tau; eauto.
+Qed.
+
+Lemma R_order_vis rc sc s m l s1 :
+  R_order rc sc s m -> In (Some l, s1) (step rc sc s) ->
+  o_bad (order_step rc sc m l) = false /\ R_order rc sc s1 (order_step rc sc m l).
+Proof.
+  intros R H. assert (I1 : inv1 rc s1) by (eapply inv1_step; [exact (proj1 R)|exact H]).
+  unfold step in H. apply in_app_iff in H. destruct H as [H|H].
+  - eapply R_order_s_vis; eauto.
+  - eapply R_order_cx_vis; eauto.
+Qed.
+
+(** connected_first, order_preserved, nothing lost before Close / cancel, whole
+    messages only: the monitor [order_step] accepts every trace of the model. *)
+Theorem model_k_order rc sc tr s :
+  run (step rc sc) init tr s -> k_order rc sc tr = None.
+Proof.
+  intros H. unfold k_order.
+  destruct (monitor_holds (step rc sc) (order_step rc sc) o_bad (R_order rc sc)
+              (R_order_tau rc sc) (R_order_vis rc sc) _ _ _ H
+              {| o_stopped := false; o_rest := []; o_cur := []; o_bad := false |} 0) as [G _]; [|exact G].
+  unfold R_order. split; [apply inv1_init|]. cbn. auto.
 Qed.
